@@ -613,7 +613,7 @@ func (c *fctx) forStmt() []*S {
 		d.sc.declare(ctr, vRO)
 		loop.E = bin(v(ctr), "<", hi())
 		loop.Post = &S{K: SIncDec, Name: ctr, Op: "++"}
-		if c.gen && !c.inLit && c.depth < c.g.cfg.MaxDepth-1 && r.Chance(1, 6) {
+		if c.gen && !c.inLit && c.depth < c.g.cfg.MaxDepth-1 && r.Chance(1, 3) {
 			loop.Body = append(d.initlessLoop(1+r.Intn(2)), d.block(nb)...)
 			c.g.mark("initless_loop_first_in_loop_body")
 		} else {
@@ -734,6 +734,55 @@ func (c *fctx) initlessLoop(nb int) []*S {
 	name := fmt.Sprintf("c%d", k)
 	d.sc.declare(name, vRO)
 	loop := &S{K: SFor, ID: c.g.id(), E: bin(v(name), "<", lit(r.Range(1, 3))), Post: &S{K: SIncDec, Name: name, Op: "++"}}
+	if r.Chance(1, 3) {
+		// one run yields at a given count and, resumed, leaves by break at a later count; the
+		// counter is not rewound, so the next run (possibly nested in the call stack of the one
+		// that broke) makes silent iterations until the condition fails
+		y1 := r.Range(1, 2)
+		b1 := y1 + r.Range(1, 2)
+		lim := b1 + r.Range(1, 3)
+		yb := []*S{{K: SYield, ID: c.g.id(), E: v(name)}}
+		if r.Bool() {
+			yb = append(yb, &S{K: SContinue})
+		}
+		if r.Bool() { // condition-only form: the counter advances in the body
+			loop.E, loop.Post = bin(v(name), "<", lit(lim)), nil
+			loop.Body = []*S{{K: SIncDec, Name: name, Op: "++"},
+				{K: SIf, ID: c.g.id(), E: bin(v(name), "==", lit(y1)), Body: yb},
+				{K: SIf, ID: c.g.id(), E: bin(v(name), "==", lit(b1)), Body: []*S{{K: SBreak}}}}
+		} else {
+			loop.E = bin(v(name), "<", lit(lim))
+			loop.Body = []*S{
+				{K: SIf, ID: c.g.id(), E: bin(v(name), "==", lit(y1)), Body: []*S{{K: SYield, ID: c.g.id(), E: v(name)}}},
+				{K: SIf, ID: c.g.id(), E: bin(v(name), "==", lit(b1)), Body: []*S{{K: SIncDec, Name: name, Op: "++"}, {K: SBreak}}}}
+		}
+		c.g.mark("initless_loop_yield_then_break_then_silent_rerun")
+		return []*S{loop}
+	}
+	if r.Chance(1, 2) {
+		// iterations that break without yielding, iterations that yield, iterations that fall
+		// through: runs of this one loop value end by condition, by break and by suspension
+		e := d.sub()
+		mod := r.Range(2, 4)
+		brk := &S{K: SIf, ID: c.g.id(), E: bin(bin(bin(v(name), "+", e.atom()), "%", lit(mod)), "==", lit(r.Intn(mod))), Body: []*S{{K: SBreak}}}
+		yld := &S{K: SIf, ID: c.g.id(), E: e.cond(), Body: []*S{{K: SYield, ID: c.g.id(), E: bin(v(name), "+", lit(r.Range(10, 40)))}}}
+		body := []*S{yld, e.eff()}
+		if r.Bool() {
+			body = []*S{brk, yld, e.eff()}
+		} else {
+			body = []*S{yld, brk, e.eff()}
+		}
+		loop.E = bin(v(name), "<", lit(r.Range(2, 6)))
+		loop.Body = body
+		c.g.mark("initless_loop_with_break_and_conditional_yield")
+		if r.Bool() {
+			// the counter is NOT rewound: a later run of the loop continues where the earlier one
+			// left (silent iterations until the condition fails, or no iteration at all)
+			c.g.mark("initless_loop_counter_persists_across_runs")
+			return []*S{loop}
+		}
+		return []*S{loop, {K: SAssign, ID: c.g.id(), Name: name, Op: "=", E: lit(r.Intn(2))}}
+	}
 	loop.Body = d.block(nb)
 	if !hasYield(loop.Body) && r.Chance(2, 3) {
 		loop.Body = append([]*S{{K: SYield, ID: c.g.id(), E: bin(v(name), "+", lit(r.Range(10, 40)))}}, loop.Body...)
